@@ -359,6 +359,11 @@ pub fn main(args: &[String]) {
                        match want { Some(k) => { if r.is_err() { return Some(format!("history {} step {}: exports.remove({}) failed although such an export is live [{}]", h, step, nm, log.join("; "))); } exps[k].2 = false; }
                                     None => if r.is_ok() { return Some(format!("history {} step {}: exports.remove({}) succeeded although no such export is live [{}]", h, step, nm, log.join("; "))); } } }
                 _ => {} }
+                // the by-name lookups resolve to the FIRST live entry with that name: exports.get_func, imports.get_func
+                { let nm = *rr.pick(&fields); let want = exps.iter().find(|x| x.2 && x.1 == nm).map(|_| imps[0].1); let got = m.exports.get_func(nm).ok();
+                  if got != want { return Some(format!("history {} step {}: exports.get_func({}) = {:?}, expected {:?} [{}]", h, step, nm, got.map(|f| f.index()), want.map(|f| f.index()), log.join("; "))); }
+                  let (md, fl) = (*rr.pick(&mods), *rr.pick(&fields)); let want = imps.iter().find(|x| x.4 && x.2 == md && x.3 == fl).map(|x| x.1); let got = m.imports.get_func(md, fl).ok();
+                  if got != want { return Some(format!("history {} step {}: imports.get_func({}, {}) = {:?}, expected {:?} [{}]", h, step, md, fl, got.map(|f| f.index()), want.map(|f| f.index()), log.join("; "))); } }
                 // after every step: exactly the entries believed live are live, each still denoting its item
                 let live_i: Vec<usize> = m.imports.iter().map(|i| i.id().index()).collect(); let want_i: Vec<usize> = imps.iter().filter(|x| x.4).map(|x| x.0.index()).collect();
                 if live_i != want_i { return Some(format!("history {} step {}: live imports are {:?}, expected {:?} (deletion by name is not isolated) [{}]", h, step, live_i, want_i, log.join("; "))); }
